@@ -1,6 +1,7 @@
 import OnetVerif.Model.C17Table
 import OnetVerif.Model.C17Accept
 import OnetVerif.Model.C17Tls
+import OnetVerif.Model.C17Dial
 /-! Model for property C17 — line-protocol front end.  The table, the identities and the sequential
 router are in `Model/C17Table.lean`, the accept path as a transition system in `Model/C17Accept.lean`. -/
 namespace C17
@@ -15,6 +16,8 @@ structure State where
   pending : Option (SetId × List Ident) := none
   /-- the accept path driven act by act (`aconn`, `aident`, …); its table is kept equal to `st.vp` -/
   acc : Acc.State := {}
+  /-- the dialling side driven act by act (`ddial`, `dreg`, `dlaunch`, `dmsg`); table and closed flag follow `st` / `acc` -/
+  dial : Dial.State := {}
 
 def init : State := {}
 
@@ -94,6 +97,9 @@ they are opened; `set` / `get` / `sethold` / `release` and everything above may 
 * `areident <c> <ident>` — the peer writes one more identity message on a connection that is served:
   `ignored` (nothing is dispatched; later messages keep the identity that was tested)
 * `agone <c>` — the peer closes its end
+* `ddial <d> <ident>` / `dreg <d>` / `dlaunch <d>` / `dmsg <d> <m>` — the dialling side act by act (`Model/C17Dial.lean`): the
+  router sends to a new peer and its `connect` is held before `registerConnection` (`connected`), then before
+  `launchHandleRoutine` (`registered`), then the send completes (`launched`); after `astop`: `closed`
 * `astop` — `Router.Stop` (once; afterwards no `aconn`): the receive loops end; `areg` / `alaunch` of a connection
   whose goroutine stood before registration / launch answer `closed`, messages are `queued` or `closed`, never dispatched
 -/
@@ -128,6 +134,51 @@ def stepCore (s : State) (toks : List String) : State × String :=
   | ["msg", k, m] => go (do let k ← k.toNat?; let m ← m.toNat?; pure (.msg k m))
   | ["dial", p] => go ((parseIdent p).map .dial)
   | ["drop", k] => go (k.toNat?.map .drop)
+  | ["ddial", dn, p] =>
+    -- the router sends to a new peer: its `connect` stands before `registerConnection`
+    match dn.toNat?, parseIdent p with
+    | some dn, some p =>
+      if dn = s.dial.thrs.length ∧ s.acc.closed = false then ({ s with dial := Dial.step s.dial (.dial p) }, "connected")
+      else (s, "bad-op")
+    | _, _ => (s, "bad-op")
+  | ["dreg", dn] =>
+    match dn.toNat? with
+    | some dn =>
+      match s.dial.thrs[dn]? with
+      | some t =>
+        if t.ph = .fresh then
+          let d := Dial.step s.dial (.register dn)
+          ({ s with dial := d }, match d.thrs[dn]? with | some t' => if t'.ph = .registered then "registered" else "closed" | none => "?")
+        else (s, "bad-op")
+      | none => (s, "bad-op")
+    | none => (s, "bad-op")
+  | ["dlaunch", dn] =>
+    match dn.toNat? with
+    | some dn =>
+      match s.dial.thrs[dn]? with
+      | some t =>
+        if t.ph = .registered then
+          let d := Dial.step s.dial (.launch dn)
+          match d.thrs[dn]? with
+          | some t' =>
+            if t'.ph = .running then
+              -- from now on the sequential router knows the connection too (`msg <key>` finds it)
+              ({ s with dial := d, st := (C17.step s.st (.dial t.peer)).1 }, "launched")
+            else ({ s with dial := d }, "closed")
+          | none => (s, "?")
+        else (s, "bad-op")
+      | none => (s, "bad-op")
+    | none => (s, "bad-op")
+  | ["dmsg", dn, m] =>
+    match dn.toNat?, m.toNat? with
+    | some dn, some m =>
+      match s.dial.thrs[dn]? with
+      | some t =>
+        if t.ph = .running ∧ s.dial.closed = false then
+          ({ s with dial := Dial.step s.dial (.recv dn m) }, s!"dispatched:{t.peer.key}:{m}")
+        else (s, "bad-op")
+      | none => (s, "bad-op")
+    | _, _ => (s, "bad-op")
   | ["aconn", c] =>
     -- the listener of a stopped router is closed: nobody connects any more
     if c.toNat? = some s.acc.conns.length ∧ s.acc.closed = false then ({ s with acc := Acc.step s.acc .connect }, "ok")
@@ -222,7 +273,8 @@ def stepCore (s : State) (toks : List String) : State × String :=
 /-- one line; the accept path's copy of the table follows the router's -/
 def step (s : State) (toks : List String) : State × String :=
   let r := stepCore s toks
-  ({ r.1 with acc := { r.1.acc with vp := r.1.st.vp } }, r.2)
+  ({ r.1 with acc := { r.1.acc with vp := r.1.st.vp },
+              dial := { r.1.dial with vp := r.1.st.vp, closed := r.1.acc.closed } }, r.2)
 
 end Drv
 
